@@ -64,6 +64,9 @@ type Prop[C any] struct {
 	Test  string
 	Gen   func(*rapid.T) C
 	Run   func(C) *Outcome
+	// CrashFile: write every case to an in-flight file before running it, so a
+	// process-killing failure leaves its input behind (costly; off for pure checks).
+	CrashFile bool
 }
 
 // NewProp registers the replay handler and returns the property.
@@ -96,7 +99,10 @@ func (p *Prop[C]) Exec(t Failer, c C) {
 }
 
 func (p *Prop[C]) exec(t Failer, c C) {
-	done := InFlight(p.Props[0], p.Test, c)
+	done := func() {}
+	if p.CrashFile {
+		done = InFlight(p.Props[0], p.Test, c)
+	}
 	o := p.safeRun(c)
 	done()
 	var h uint64
@@ -173,4 +179,11 @@ func PanicSig(r any, stack string) string {
 		}
 	}
 	return sanitize("panic:" + frame + ":" + msg)
+}
+
+// AppendContext appends s to the message of every recorded failure.
+func (o *Outcome) AppendContext(s string) {
+	for i := range o.fails {
+		o.fails[i].msg += "\n" + s
+	}
 }
